@@ -3,6 +3,7 @@ use core::ops::{Deref, DerefMut};
 /// Toggle is similar to Option, except that even in the Off/"None" case, there is still
 /// an owned allocated inner object. This is useful for holding onto pre-allocated objects
 /// that can be toggled as enabled.
+#[derive(Copy, Clone)]
 pub struct Toggle<T> {
     inner: T,
     on:    bool,
@@ -23,6 +24,10 @@ impl<T> Toggle<T> {
 
     pub fn is_on(&self) -> bool {
         self.on
+    }
+
+    pub fn set_on(&mut self, on: bool) {
+        self.on = on;
     }
 
     pub fn get(&self) -> Option<&T> {
